@@ -26,12 +26,14 @@ ASSUMPTIONS = [
     'message text without MSH-12, string assignment to a parent-less segment) are default-dependent by documentation and not in the corpus',
 ]
 TECHNIQUE = 'Hypothesis differential testing of explicit-argument closures across process-wide default configurations'
-LEVEL_TEXT = 'exploration: sampled closures x sampled configurations (12 default versions x 2 levels x 3 delimiter sets)'
+LEVEL_TEXT = 'exploration: sampled closures x sampled configurations (12 default versions x 2 levels x 4 delimiter sets)'
 LEVEL_NOTE = 'trusted: the closure corpus really is explicit (audited list in this module); module globals of hl7apy are saved/restored around each case'
 
 CUSTOM = {'FIELD': '!', 'COMPONENT': '$', 'SUBCOMPONENT': '%', 'REPETITION': '*', 'ESCAPE': '@'}
 # a second set whose characters occur in ordinary content (version numbers, decimals, times): legal, unusual
 CUSTOM2 = {'FIELD': '#', 'COMPONENT': '.', 'SUBCOMPONENT': ':', 'REPETITION': '+', 'ESCAPE': '?'}
+# the standard characters plus the optional truncation key (a key that explicit five-key sets do not have)
+CUSTOM3 = {'FIELD': '|', 'COMPONENT': '^', 'SUBCOMPONENT': '&', 'REPETITION': '~', 'ESCAPE': '\\', 'TRUNCATION': '#'}
 
 
 _PRISTINE = {}       # dictionaries of the library taken before any default was touched: name -> (object, copy of its content)
@@ -85,7 +87,7 @@ class Defaults(object):
         self.h.set_default_version(cfg['v'])
         self.h.set_default_validation_level(cfg['level'])
         if cfg['custom_ec']:
-            self.h.set_default_encoding_chars(dict(CUSTOM2 if cfg['custom_ec'] == 2 else CUSTOM))
+            self.h.set_default_encoding_chars(dict(CUSTOM2 if cfg['custom_ec'] == 2 else CUSTOM3 if cfg['custom_ec'] == 3 else CUSTOM))
         else:
             self.h._DEFAULT_ENCODING_CHARS = self.saved[0]
 
@@ -311,7 +313,7 @@ def c17_leaf(v, dt, ec):
 
 @st.composite
 def configs(draw):
-    return {'v': draw(st.sampled_from(T.VERSIONS)), 'level': draw(st.sampled_from([1, 2])), 'custom_ec': draw(st.sampled_from([False, True, True, 2]))}
+    return {'v': draw(st.sampled_from(T.VERSIONS)), 'level': draw(st.sampled_from([1, 2])), 'custom_ec': draw(st.sampled_from([False, True, True, 2, 3]))}
 
 
 @st.composite
